@@ -239,6 +239,27 @@ def gen_hist(ctx):
             key = rng.choice(["manifest", "head:0", "get:0"])
             add("auth-header-" + key.split(":")[0], b[:1], [pull_step("ns/m:t", [{"blob": 0}], None, {key: [{"status": 401, "hdr": {"Www-Authenticate": h}}]})], tail=0)
 
+        # --- N: a registry that wants a bearer token on every request (challenge -> signed token request -> replay);
+        #        tokens stop being accepted when the script rotates them (between attempts, or in the middle of one)
+        L2 = [{"blob": 0}, {"blob": 1}]
+
+        def cleanstep(rotate):
+            return {"t": "pull", "name": "ns/m:t", "manifest": {"layers": json.loads(json.dumps(L2))}, "script": {}, "clean": True, "rotate": rotate}
+        add("auth-clean", b[:2], [pull_step("ns/m:t", L2, {"blob": 2})] if False else [pull_step("ns/m:t", L2)], tail=1, auth=True)
+        for where, sc in [("head", {"head:1": [{"status": 500, "raw": hx(b"oops")}]}), ("get", {"get:1": [{"status": 302}]}), ("head-first-layer", {"head:0": [{"status": 503}]}),
+                          ("corrupt-layer", {"cdn:1:%d" % (len(b[1]) - 1): [{"flip": 0}]}), ("truncated-manifest", {"manifest": [{"cut": 20}]})]:
+            add("auth-fail-after-token-then-rotate-" + where, b[:2], [pull_step("ns/m:t", L2, None, sc), cleanstep(True), cleanstep(True)], tail=0, auth=True)
+        add("auth-fail-then-same-tokens", b[:2], [pull_step("ns/m:t", L2, None, {"head:1": [{"status": 500}]}), cleanstep(False)], tail=0, auth=True)
+        for key in ["manifest", "head:0", "get:0", "head:1", "get:1"]:
+            add("auth-token-expires-after-" + key.split(":")[0], b[:2], [pull_step("ns/m:t", L2, None, {key: [{"rotate_after": True}]}), cleanstep(False)], tail=0, auth=True)
+        add("auth-token-stale-when-issued", b[:2], [pull_step("ns/m:t", L2, None, {"token": [{"stale": True}]}), cleanstep(False)], tail=0, auth=True)
+        for kind, tsp in [("500", {"status": 500, "raw": hx(b"down")}), ("403-empty", {"status": 403, "raw": ""}), ("bad-json", {"raw": hx(b"<html>")}), ("no-token-field", {"raw": hx(b"{}")}),
+                          ("null", {"raw": hx(b"null")}), ("garbage", {"nohdr": True}), ("truncated", {"cut": 5, "end": "unexp", "cl": 30})]:
+            add("auth-token-endpoint-" + kind, b[:2], [pull_step("ns/m:t", L2, None, {"token": [tsp]}), cleanstep(True)], tail=0, auth=True)
+        add("auth-no-key", b[:2], [pull_step("ns/m:t", L2)], tail=0, auth=True, nokey=True)
+        add("auth-resume-planted", b[:2], [{"t": "plant", "blob": 0, "data": hx(b[0][:1] + bytes(len(b[0]) - 1)), "parts": [{"N": 0, "Offset": 0, "Size": len(b[0]), "Completed": 1}]},
+                                           pull_step("ns/m:t", L2)], tail=1, auth=True)
+
         # --- C: HEAD faults
         for k in ["500", "404", "401-good", "401-tokfail", "nohdr"]:
             sc = {}
@@ -379,6 +400,8 @@ def gen_hist(ctx):
                                                    "pulls": [two[0], {"name": "ns/n:t", "manifest": {"layers": [{"blob": 2}, {"blob": 1}]}}]}] + json.loads(json.dumps(tails)), tail=0, cost=10)
         # mirror: the joined download fails before any byte (direct URL cannot be resolved), resume state stays
         add("join-inflight-direct-url-fails", b[:3], [{"t": "par", "script": {"get:1": [{"status": 302, "wait": hold}]}, "pulls": json.loads(json.dumps(two))}] + json.loads(json.dumps(tails)), tail=0, cost=9)
+        # the joined download's Prepare fails (HEAD held until the second pull has joined, then 500): the error reaches both
+        add("join-inflight-prepare-fails", b[:3], [{"t": "par", "script": {"head:1": [{"status": 500, "raw": hx(b"oops"), "wait": hold}]}, "pulls": json.loads(json.dumps(two))}] + json.loads(json.dumps(tails)), tail=0, cost=9)
         # one of the two clients goes away while both wait for the held layer (monitor only)
         for who in (0, 1):
             add("join-inflight-%s-cancelled" % ("starter", "joiner")[who], b[:3], [{"t": "par", "script": {k1: [{"wait": hold, "flip": rng.randrange(n1)} if rng.random() < 0.5 else {"wait": hold}]},
@@ -606,14 +629,28 @@ def token_ok(e):
     return isinstance(v, dict) and (v.get("token") is None or isinstance(v.get("token"), str))
 
 
+def token_of(e):
+    """what getAuthorizationToken makes of the token service's answer: the token (bytes) or None for an error"""
+    if not token_ok(e):
+        return None
+    v = json.loads(bytes.fromhex(e["body"]).decode())
+    t = (v or {}).get("token") or ""
+    return t.encode()
+
+
 def cq_hresp(ids, e, served, reg_host):
     if e.get("cancelled"):
-        return "(mkH true 0 (@nil N) false None 0 None)"
-    tok = False
-    if e["status"] == 401:
-        nxt = [x for x in served if x["seq"] == e["seq"] + 1]
-        if nxt and nxt[0]["k"] == "token":
-            tok = token_ok(nxt[0])
+        return "(mkH true 0 (@nil N) (@nil N) None None 0 None)"
+    tokreq = "None"
+    nxt = [x for x in served if x["seq"] > e["seq"] and not x["k"].startswith("cdn")]
+    if e["status"] == 401 and nxt and nxt[0]["k"] == "token":
+        t = nxt[0]
+        q = urllib.parse.parse_qs(t.get("query", ""), keep_blank_values=True)
+        tk = token_of(t)
+        tokreq = "(Some (mkTok %s %s %s))" % (cq_bytes((q.get("service") or [""])[0].encode()), cq_bytes(" ".join(q.get("scope") or []).encode()),
+                                              "None" if tk is None else "(Some %s)" % cq_bytes(tk))
+    a = e.get("auth", "")
+    req_tok = a[len("Bearer "):].encode() if a.startswith("Bearer ") else b""
     redir = "None"
     if e.get("loc"):
         u = urllib.parse.urlparse(e["loc"])
@@ -624,8 +661,8 @@ def cq_hresp(ids, e, served, reg_host):
         m = go_manifest(bytes.fromhex(e["body"]))
         if m is not None:
             man = "(Some %s)" % cq_manifest(ids, m)
-    return "(mkH %s %s %s %s %s %s %s)" % (cq_bool(e["end"] == "nohdr"), cq_Z(e["status"]), cq_bytes(bytes.fromhex(e.get("www_auth", ""))),
-                                            cq_bool(tok), redir, cq_Z(e["body_n"] if e["method"] == "HEAD" else 0), man)
+    return "(mkH %s %s %s %s %s %s %s %s)" % (cq_bool(e["end"] == "nohdr"), cq_Z(e["status"]), cq_bytes(bytes.fromhex(e.get("www_auth", ""))),
+                                               cq_bytes(req_tok), tokreq, redir, cq_Z(e["body_n"] if e["method"] == "HEAD" else 0), man)
 
 
 def cq_cresp(e):
@@ -649,7 +686,7 @@ def final_chunks(served):
     return out
 
 
-def render_pull(ids, digests, tab, pre, step_case, so, reg_host):
+def render_pull(ids, digests, tab, pre, step_case, so, reg_host, haskey=True):
     served = [dict(e) for e in so["served"]]
     cs = step_case.get("cancel")
     if cs:
@@ -660,8 +697,9 @@ def render_pull(ids, digests, tab, pre, step_case, so, reg_host):
             hit[cs["n"] - 1]["cancelled"] = True
     name_rel = "%s/%s" % (reg_host, step_case["name"].replace(":", "/"))
     plog, obs = build_plog(ids, served, [e for e in served if e["k"] == "manifest"], reg_host)
-    return "chk_pull %s %s %s %s %s %s %s %s" % (tab, cq_bool(FX), cq_store(ids, pre), cq_N(ids.name(name_rel)), plog, cq_bool(so["success"]),
-                                                 cq_store(ids, so["store"]), cq_list(obs, "obs_trace"))
+    ac = "(mkAuth %s %s)" % (cq_bytes(("http://%s/token" % reg_host).encode()), cq_bool(haskey))
+    return "chk_pull %s %s %s %s %s %s %s %s %s" % (tab, cq_bool(FX), ac, cq_store(ids, pre), cq_N(ids.name(name_rel)), plog, cq_bool(so["success"]),
+                                                    cq_store(ids, so["store"]), cq_list(obs, "obs_trace"))
 
 
 def build_plog(ids, served, manifest_entries, reg_host):
@@ -763,7 +801,7 @@ def render_hist(c, o):
                 out.append((si, None, "monitor-only class"))
             else:
                 try:
-                    out.append((si, render_pull(ids, o["digests"], tab, pre, sc, so, o["reg"]), None))
+                    out.append((si, render_pull(ids, o["digests"], tab, pre, sc, so, o["reg"], haskey=not c.get("nokey")), None))
                 except Unrenderable as ex:
                     out.append((si, None, str(ex)))
         pre = so["store"]
